@@ -512,6 +512,10 @@ fn dribble_precheck(replay: &Option<String>) -> Option<i32> {
                 Err(p) => { println!("VIOLATION property=C06 replay={path}\n  witness: {}: panicked: {p}", c.label()); 1 },
             });
         }
+        if v["site"] == "stall-mid-frame" {
+            let (t, c) = (v["tokio"].as_bool().unwrap_or(true), v["compressed"].as_bool().unwrap_or(true));
+            return Some(match crate::report::guard(|| ls::run_stall(t, c)) { Ok(Ok(())) => { println!("replay: held"); 0 }, Ok(Err(e)) => { println!("VIOLATION property=C06 replay={path}\n  witness: {e}"); 1 }, Err(p) => { println!("VIOLATION property=C06 replay={path}\n  witness: panicked: {p}"); 1 } });
+        }
         if v["site"] != "dribble-writes" { return None; }
         let idx = v["index"].as_u64().unwrap_or(0) as usize;
         let c = cases.get(idx)?;
@@ -546,6 +550,17 @@ fn dribble_precheck(replay: &Option<String>) -> Option<i32> {
         return Some(1);
     }
     eprintln!("C06 scripted-acceptance: {} executions", scases.len());
+    // a stall of 70 000 not-ready answers in the middle of a frame
+    for (t, c) in [(false, true), (true, true), (false, false), (true, false)] {
+        let what = match crate::report::guard(|| ls::run_stall(t, c)) { Ok(Ok(())) => continue, Ok(Err(e)) if e.starts_with("MACHINERY") => { eprintln!("{e}"); return Some(4); }, Ok(Err(e)) => e, Err(p) => format!("panicked: {p}") };
+        let path = format!("/verif/replays/C06/stall-mid-frame-{}-{}.json", if t { "tokio" } else { "blocking" }, if c { "compressed" } else { "uncompressed" });
+        println!("VIOLATION property=C06 replay={path}");
+        println!("  signature: C06|stall-mid-frame|{}", if t { "tokio" } else { "blocking" });
+        println!("  witness:   {} connection ({}): 5 bytes of a frame accepted, 70 000 not-ready answers, then everything: {what}", if t { "tokio" } else { "blocking" }, if c { "compressed" } else { "uncompressed" });
+        let _ = std::fs::create_dir_all("/verif/replays/C06");
+        let _ = std::fs::write(&path, json!({"property": "C06", "site": "stall-mid-frame", "tokio": t, "compressed": c}).to_string());
+        return Some(1);
+    }
     None
 }
 
